@@ -42,7 +42,7 @@ struct Enumerate<'a> {
 }
 
 fn input_points<F: Flt>(l: &Layout, mode: Mode) -> Vec<Vec<Parts<F>>> {
-    let pts: &[(f64, f64)] = if mode == Mode::Quick { &[(0.75, -1.25), (2.5, 0.3125), (0.0, 0.75)] } else { &[(0.75, -1.25), (2.5, 0.3125), (-0.625, 1.25), (0.0, 0.75)] };
+    let pts: &[(f64, f64)] = if mode == Mode::Quick { &[(0.75, -1.25), (2.5, 0.3125), (0.0, 0.75), (20.0, -50.0)] } else { &[(0.75, -1.25), (2.5, 0.3125), (-0.625, 1.25), (0.0, 0.75), (20.0, -50.0)] };
     pts.iter()
         .map(|(a, b)| {
             let x0 = few_assignments::<F>(l, *a, 1, 0).remove(0);
@@ -75,6 +75,7 @@ impl<'a> Visitor for Enumerate<'a> {
                 BfsCfg { max_len: 3, margin: 0.05, alphabet: &red, last_alphabet: &red, state_cap: 1_000_000 },
             ]
         };
+        degenerate_iterators::<F, D>(d, &l, self.stats);
         for inputs in input_points::<F>(&l, self.mode) {
             for cfg in &cfgs {
                 let info = bfs_programs::<F, D>(d, &l, &inputs, cfg, self.stats);
@@ -85,6 +86,59 @@ impl<'a> Visitor for Enumerate<'a> {
                     "states_per_level": info.states_per_level, "program_values_checked": info.programs_checked,
                     "pruned_by_reference_domain": info.pruned, "capped": info.capped,
                 }));
+            }
+        }
+    }
+}
+
+/// iterator sums and products over zero and one items (the generic interface only has the by-value
+/// forms): the empty sum is the constant 0, the empty product the constant 1, a single item is
+/// returned unchanged, and using them in a further operation changes nothing
+fn degenerate_iterators<F: Flt, D: Subject<F>>(d: Dims, l: &Layout, st: &mut Stats) {
+    let xs = few_assignments::<F>(l, 0.75, 2, 0);
+    let alpha = |p: &Parts<F>| -> Vec<F> { (0..l.nslots()).map(|i| p.alpha(l, i)).collect() };
+    let num_eq = |a: &Vec<F>, b: &Vec<F>| a.iter().zip(b.iter()).all(|(x, y)| x == y);
+    for (k, xp) in xs.iter().enumerate() {
+        let x = D::build(d, xp);
+        let r = guarded(|| {
+            let e0: Vec<D> = vec![];
+            let s0: D = e0.iter().cloned().sum();
+            let p0: D = e0.iter().cloned().product();
+            let s1: D = std::iter::once(x.clone()).sum();
+            let p1: D = std::iter::once(x.clone()).product();
+            let via_p0 = x.clone() * p0.clone();
+            let via_s0 = x.clone() + s0.clone();
+            [s0.parts(d), p0.parts(d), s1.parts(d), p1.parts(d), via_p0.parts(d), via_s0.parts(d)]
+        });
+        st.evaluations += 6;
+        st.transitions += 6;
+        st.state(hash64(&("degenerate-iter", l.type_name.as_str(), k)));
+        let case = || json!({"type": l.type_name, "dims": [d.m, d.n], "x": parts_to_json(xp)});
+        let r = match r {
+            Ok(r) => r,
+            Err(m) => {
+                st.violation(Violation { sig: format!("iter n<=1 {} panic", l.type_name), case: case(), what: format!("panicked: {m}") });
+                continue;
+            }
+        };
+        let constant = |c: f64| -> Vec<F> { (0..l.nslots()).map(|i| F::from64(if i == 0 { c } else { 0.0 })).collect() };
+        let want: [(&str, Vec<F>); 6] = [
+            ("empty sum", constant(0.0)),
+            ("empty product", constant(1.0)),
+            ("sum of one item", alpha(xp)),
+            ("product of one item", alpha(xp)),
+            ("x * (empty product)", alpha(xp)),
+            ("x + (empty sum)", alpha(xp)),
+        ];
+        for (i, (name, w)) in want.iter().enumerate() {
+            let got = alpha(&r[i]);
+            st.outcome(hash64(&(name, got.iter().map(|v| v.bits()).collect::<Vec<_>>())));
+            if !num_eq(&got, w) {
+                st.violation(Violation {
+                    sig: format!("iter {name} {}", l.type_name),
+                    case: case(),
+                    what: format!("{name}: parts {:?}, expected {:?}", got.iter().map(|v| v.to64()).collect::<Vec<_>>(), w.iter().map(|v| v.to64()).collect::<Vec<_>>()),
+                });
             }
         }
     }
@@ -189,7 +243,7 @@ fn main() {
         mode: cli.mode,
         seed: cli.seed,
         start,
-        rule: "breadth-first exploration of ALL straight-line programs over the operation alphabet (66 operations: functions, powers, scalar and compound-assignment forms, borrowed forms, atan2, powd, mul_add, iterator sum/product) on registers {x0, x1, lifted constant, earlier results}, any register may be re-used (DAGs, r op= r); quick: length <= 2 over the full alphabet (the last step must read the newest register; otherwise its value is that of a shorter program), thorough: length 2 full alphabet and length 3 over the one-representative-per-family alphabet; states = register files, de-duplicated by the multiset of register bit patterns; programs whose reference real parts leave the margin-shrunk domain are pruned by the reference. Non-trivial = length >= 2 or a non-zero derivative part.".into(),
+        rule: "breadth-first exploration of ALL straight-line programs over the operation alphabet (66 operations: functions, powers, scalar and compound-assignment forms, borrowed forms, atan2, powd, mul_add, iterator sum/product) on registers {x0, x1, lifted constant, earlier results}, any register may be re-used (DAGs, r op= r); quick: length <= 2 over the full alphabet (the last step must read the newest register; otherwise its value is that of a shorter program), thorough: length 2 full alphabet and length 3 over the one-representative-per-family alphabet; states = register files, de-duplicated by the multiset of register bit patterns; programs whose reference real parts leave the margin-shrunk domain are pruned by the reference; input points include one with a zero and one with large real parts (20, -50); plus iterator sums and products over zero and one items on every type. Non-trivial = length >= 2 or a non-zero derivative part.".into(),
         assumptions: vec![
             "oracle: the same program in the reference algebra over double-double; acceptance |impl - ref| <= 2 E_out with the propagated first-order bound of DESIGN 2.5".into(),
             "inputs carry generic independent parts of every order; real parts are grid points".into(),
